@@ -26,7 +26,7 @@ ASSUMPTIONS = [
     'by the statement and are not compared',
 ]
 ANCHORS = ['Table.concat', 'concat']
-REQUIRED = ['concatenated_again_after_in_place_change', 'names_shared_between_the_axes', 'non_disjoint_under_relaxed_profile', 'hollow_operand_cases', 'hollow_operand_concatenated', 'concat_calls', 'operand_list_reused', 'branch_padding', 'branch_resort',
+REQUIRED = ['flat_operand_cases', 'concatenated_again_after_in_place_change', 'names_shared_between_the_axes', 'non_disjoint_under_relaxed_profile', 'hollow_operand_cases', 'hollow_operand_concatenated', 'concat_calls', 'operand_list_reused', 'branch_padding', 'branch_resort',
             'branch_passthrough', 'non_disjoint_refused', 'via_biom_concat',
             'via_table_concat', 'single_table_arg', 'axis_sample',
             'axis_observation', 'k1', 'k2', 'k3plus']
@@ -79,6 +79,12 @@ def run_case(ctx, index):
         universe = list(dict.fromkeys(universe))
         r.shuffle(universe)
         ctx.count('names_shared_between_the_axes')
+    # ... and one that has ids on the other axis only (nothing to add along
+    # the concatenation axis): the other-axis ids it names still belong to
+    # the union
+    flat = r.randrange(1, k) if (k >= 2 and index % 11 == 4) else None
+    if flat is not None:
+        all_ax[flat] = []
     for j in range(k):
         ax_ids = all_ax[j]
         n_ax = len(ax_ids)
@@ -100,6 +106,8 @@ def run_case(ctx, index):
                 o_ids.append('extra%d' % j)
         if j == hollow:
             o_ids = []
+        if j == flat:
+            o_ids = o_ids + ['flat_only%d' % j]
         shape = (len(o_ids), n_ax) if axis == 'sample' else (n_ax,
                                                               len(o_ids))
         D = gen.gen_matrix(r, shape[0], shape[1], vclass,
@@ -122,7 +130,7 @@ def run_case(ctx, index):
             'operands': [sp.describe() for sp in specs],
             'layouts': [gen.layout_state(t) for t in tables]}
     # ------------------------------------------------ refusal of overlaps
-    if k >= 2 and index % 9 == 0:
+    if k >= 2 and index % 9 == 0 and flat is None:
         # an id of any earlier operand turns up again in the last one; the
         # refusal belongs to concat itself, so it also holds when the
         # duplicate-id kinds of the error profile are relaxed
@@ -156,9 +164,11 @@ def run_case(ctx, index):
             oracles.unchanged(t, b, 'C10/operand-modified', desc, 'operand')
         ctx.case(dict(desc, refused=True), True)
         return
-    if hollow is not None:
-        ctx.count('hollow_operand_cases')
-        desc['hollow_operand'] = hollow
+    if hollow is not None or flat is not None:
+        ctx.count('hollow_operand_cases' if flat is None
+                  else 'flat_operand_cases')
+        desc['hollow_operand' if flat is None else 'flat_operand'] = \
+            hollow if flat is None else flat
         try:
             if entry == 'biom':
                 import biom
@@ -167,13 +177,15 @@ def run_case(ctx, index):
                 res = tables[0].concat(list(tables[1:]), axis=axis)
         except Exception:
             # refusing an operand without the other axis is not a wrong table
-            ctx.count('hollow_operand_refused')
+            ctx.count('hollow_operand_refused' if flat is None
+                      else 'flat_operand_refused')
             for t, b in zip(tables, befores):
                 oracles.unchanged(t, b, 'C10/operand-modified', desc,
                                   'operand')
             ctx.case(desc, True)
             return
-        ctx.count('hollow_operand_concatenated')
+        ctx.count('hollow_operand_concatenated' if flat is None
+                  else 'flat_operand_concatenated')
     elif entry == 'biom':
         import biom
         res = biom.concat(list(tables), axis=axis)
@@ -241,7 +253,7 @@ def run_case(ctx, index):
     union = verify(res)
     for t, b in zip(tables, befores):
         oracles.unchanged(t, b, 'C10/operand-modified', desc, 'operand')
-    if index % 5 == 2 and hollow is None:
+    if index % 5 == 2 and hollow is None and flat is None:
         # the same operand objects once more after one of them was changed
         # in place (other-axis ids renamed so that their order turns round,
         # or every value doubled): the second result is built from the
